@@ -196,7 +196,19 @@ def _worker(chunk):
                 raise Inconclusive("grammar called on %r" % (interp.read(c, path),), interp.where())
             rest = t.bytes().decode("utf-8", "replace")
             w = [class_of[ord(ch)] for ch in rest]
-            j = peg.eval_peg(g, classes, g[gram_key], w, 0)
+
+            def verify(p, a, b, _w):
+                lo, hi = len(rest[:a].encode("utf-8")), len(rest[:b].encode("utf-8"))
+                r = interp.call_value(p.extra, [TextV(t.base, t.start + lo, t.start + hi, "str")])
+                if not isinstance(r, bool):
+                    raise Inconclusive("verify() predicate answered %r" % (r,), interp.where())
+                return r
+            saved = peg.VERIFY_HOOK[0]
+            peg.VERIFY_HOOK[0] = verify
+            try:
+                j = peg.eval_peg(g, classes, g[gram_key], w, 0)
+            finally:
+                peg.VERIFY_HOOK[0] = saved
             if j is None:
                 f = {"input": t, "context": NONE, "kind": NONE}
                 return err(Adt(EM, BT, (Adt(SPE, 0, [f[n] for n in names]),)))
